@@ -92,6 +92,9 @@ Tpl(id) ==
       [] id = "frac"   -> [cpds |-> <<"A", "X", "B", "Y", "Z">>, lab |-> <<"A", "B">>, der |-> Empty,
                            rxns |-> <<Rx("v1", <<"A">>, <<"B">>, <<"A", "k1">>, TRUE),
                                       [Rx("v2", <<"X", "X">>, <<"Y", "Z", "Z", "Z">>, <<"X", "A", "k2">>, FALSE) EXCEPT !.den = 2]>>]
+      \* a mapped reaction whose rate reads its own tracked product (A -> B at rate k1 * A * B)
+      [] id = "prodarg" -> [cpds |-> <<"A", "B">>, lab |-> <<"A", "B">>, der |-> Empty,
+                           rxns |-> <<Rx("v1", <<"A">>, <<"B">>, <<"A", "B", "k1">>, TRUE)>>]
       [] id = "chain"  -> [cpds |-> <<"A", "B">>, lab |-> <<"A", "B">>, der |-> Empty,
                            rxns |-> <<Rx("v0", <<>>, <<"A">>, <<"k0">>, TRUE),
                                       Rx("v1", <<"A">>, <<"B">>, <<"k1", "A">>, TRUE),
@@ -182,7 +185,12 @@ Compute(rq) ==
        THEN [ok |-> TRUE, tpl |-> tpl, ord |-> ord, b |-> b, req |-> rq, outcome |-> "ok",
              rxns |-> LabelledRxns(b, "occurrence"),
              init |-> LInit(b, [c \in CpdSet(b) |-> IF c \in DOMAIN rq THEN rq[c] ELSE NoReq]),
-             pts  |-> [k \in 1..NPts |->
+             \* (rates reading a product: no predicted derivatives; the labelled model must still be evaluable at `probe`
+             \* and, every reaction being 1:1, keep the total amount)
+             probe |-> IF HasWild(b) THEN <<[y |-> Point(b, 1),
+                                            balanced |-> \A j \in DOMAIN b.rxns : Len(b.rxns[j].subs) = Len(b.rxns[j].prods)]>>
+                       ELSE <<>>,
+             pts  |-> IF HasWild(b) THEN <<>> ELSE [k \in 1..NPts |->
                          LET y  == Point(b, k)
                              tt == Totals(b, y)
                          IN [y |-> y, dy |-> LRhs(b, y, ArgMode), tot |-> tt, base |-> BRhs(b, tt)]]]
@@ -217,12 +225,12 @@ ThUnit  == Ok => UnitRule(sc.b, ArgMode)
 ThAtom  == Ok => AtomRule(sc.b)
 \* the isotopomers of a compound together move like the base compound at the totals (SumRule, on the stored values)
 ThSum   == Ok => LET idx == IsoIndex(sc.b)
-                 IN \A k \in 1..NPts : \A c \in CpdSet(sc.b) : TotalOfI(idx, sc.pts[k].dy, c) = sc.pts[k].base[c]
+                 IN \A k \in DOMAIN sc.pts : \A c \in CpdSet(sc.b) : TotalOfI(idx, sc.pts[k].dy, c) = sc.pts[k].base[c]
 \* placement keeps the amount of every compound (InitRule, on the stored values)
 ThInit  == Ok => LET idx == IsoIndex(sc.b) IN \A c \in CpdSet(sc.b) : TotalOfI(idx, sc.init, c) = sc.b.init[c]
 \* rejection is decided by the length of the map alone
 \* non-integer coefficients: every rate of such a reaction is a multiple of the denominator (so the integer arithmetic is exact)
-ThDen   == Ok => \A k \in 1..NPts : \A j \in Unmapped(sc.b) :
+ThDen   == Ok => \A k \in DOMAIN sc.pts : \A j \in Unmapped(sc.b) :
                     (BRate(sc.b, sc.pts[k].tot, sc.b.rxns[j]) % Den(sc.b.rxns[j])) = 0
 ThReject == Done => ((sc.outcome = "rejected") <=> (\E j \in MappedIdx : Len(maps[j]) < SLab(sc.b, sc.b.rxns[j])))
 =============================================================================
